@@ -44,6 +44,8 @@ def special_family():
     for t in ("xor", "xnor", "and", "or", "nand", "nor"):
         yield _mk(ins, ["y"], [], [["gate", t, [["g0", "y", ["a", "a"]]]]]), "rep"
         yield _mk(ins, ["y"], [], [["gate", t, [["g0", "y", ["a", "b", "a"]]]]]), "rep"
+        for ops in (["a", "a", "a"], ["a", "a", "a", "b"], ["a", "b", "a", "a"], ["a", "a", "a", "a"], ["b", "a", "b", "a", "b"]):
+            yield _mk(ins, ["y"], [], [["gate", t, [["g0", "y", ops]]]]), "rep"
     for o in OPS2:
         yield _mk(ins, ["y"], [], [["assign", [["y", [o, "a", "a"]]]]]), "rep"
         yield _mk(ins, ["y"], [], [["assign", [["y", [o, [o, "a", "b"], [o, "a", "b"]]]]]]), "rep"
@@ -55,6 +57,11 @@ def special_family():
         yield _mk(ins, ["y"], [tie], [["assign", [[tie, "a"]]], ["assign", [["y", ["and", tie, "b"]]]]]), "tie"
         yield _mk(ins + [tie], ["y"], [], [["assign", [["y", ["or", tie, ["const", k]]]]]]), "tie"
         yield _mk(ins, ["y"], [tie], [["gate", "and", [["g0", tie, ["a", "b"]]]], ["assign", [["y", [("xor"), tie, ["const", k]]]]]]), "tie"
+    # nets whose names merely START like the internal constants (tie_hi, tie_lo): ordinary nets
+    for tie in ("tie_hi", "tie_lo", "tie_a", "tie_00"):
+        yield _mk(ins, ["y"], [tie], [["assign", [[tie, ["and", "a", "b"]]]], ["assign", [["y", ["or", tie, "c"]]]]]), "plain"
+        yield _mk(ins, ["y", tie], [], [["gate", "nor", [["g0", tie, ["a", "b"]]]], ["gate", "buf", [["g1", "y", [tie]]]]]), "plain"
+        yield _mk(ins, [tie], [], [["assign", [[tie, ["const", "1"]]]]]), "plain"
     # nets named like synthetic expression nodes
     yield _mk(ins + ["x", "y"], ["g", "and_a_b"], [], [["assign", [["g", ["and", ["and", "a", "b"], "c"]]]],
                                                        ["assign", [["and_a_b", ["or", "x", "y"]]]]]), "syn"
@@ -110,6 +117,10 @@ def cases(tier, seed):
         yield {"nl": nl, "layout": "plain", "order": None, "comments": False, "salt": 4, "fam": "plain"}
     for nl, fam in special_family():
         yield {"nl": nl, "layout": "plain", "order": None, "comments": False, "salt": 2, "fam": fam}
+    for pre_e, nm in ((["and", "a", "b"], "and_a_b"), (["not", "a"], "not_a"), (["xor", "a", "b"], "xor_a_b")):
+        pre = _mk(["a", "b"], ["w"], [], [["assign", [["w", pre_e]]]])
+        main = _mk(["a", nm], ["z", "y"], [], [["assign", [["z", nm]]], ["assign", [["y", ["or", "a", nm]]]]])
+        yield {"nl": main, "pre": pre, "layout": "plain", "order": None, "comments": False, "salt": 5, "fam": "plain"}
     for nl in reject_family():
         yield {"nl": nl, "layout": "plain", "order": None, "comments": False, "salt": 3, "fam": "reject"}
     n = 250 if tier == "quick" else 5000
@@ -158,6 +169,12 @@ def run_case(case):
                        header_comments=case.get("hdr", False))
     fam = case["fam"]
     fails = []
+    if case.get("pre") is not None:
+        # another netlist parsed earlier by the same process must not influence this one
+        try:
+            cg.io.verilog_to_circuit(vlog.render(case["pre"], rng, layout="plain"), case["pre"]["name"])
+        except Exception:  # noqa
+            pass
 
     def fail(kind, msg):
         # classification by a predicate on the INPUT, most specific first (keys of known findings)
